@@ -49,7 +49,7 @@ async def _alone(sim, request):
     from ahbicht.validation.validation import validate_data_element_freetext
 
     out = {}
-    for element in request["elements"]:
+    for position, element in request["elements"]:
         for status in ("IS_REQUIRED", "IS_OPTIONAL"):
             task = asyncio.get_running_loop().create_task(
                 validate_data_element_freetext(
@@ -57,17 +57,17 @@ async def _alone(sim, request):
                 )
             )
             try:
-                out[f"{element['d']}|{status}"] = {"ok": canon((await task).validation_result)}
+                out[f"{position}|{status}"] = {"ok": canon((await task).validation_result)}
             except (KeyboardInterrupt, SystemExit):
                 raise
             except BaseException as exc:  # pylint:disable=broad-except
-                out[f"{element['d']}|{status}"] = {"exc": type(exc).__name__}
+                out[f"{position}|{status}"] = {"exc": type(exc).__name__}
     return Pre(out)
 
 
 def _references(scenario, rid):
     request = next(r for r in scenario["requests"] if r["rid"] == rid)
-    elements = [n for n, _ in walk(request["op"]["ahb"]) if n["t"] == "f"]
+    elements = [[i, n] for i, (n, _) in enumerate(walk(request["op"]["ahb"])) if n["t"] == "f"]
     solo_request = {k: v for k, v in request.items() if k not in ("fault", "start")}
     solo_request["elements"] = elements
     solo = dict(scenario, profile="zero", decisions={}, decisions_closed=False, requests=[solo_request])
@@ -132,6 +132,12 @@ def _gen_request(rnd, rid, world, cer_template, universe, fc_owner_pool):
                 element["e"] = donor["e"]
                 for key in [k for k, d in owners.items() if d == donor["d"]]:
                     owners[key] = None
+                # repeated lines of one segment often carry the very same discriminator, too
+                same_segment = any(
+                    n["t"] == "s" and element in n["des"] and donor in n["des"] for n, _ in walk(ahb)
+                )
+                if same_segment and rnd.random() < 0.6:
+                    element["d"] = donor["d"]
     op = {"entry": "deep", "ahb": ahb, "soll": rnd.random() < 0.8}
     return {"rid": rid, "start": 0, "cer": dict(cer_template, hints={k: f"H{k}@{rid}" for k in hints}), "op": op,
             "owners": owners}
@@ -224,13 +230,26 @@ def execute(scenario):
             if outcome.get("exc") != "NotImplementedError":
                 fail(verdict, "validation-crashed", f"{rid}: {outcome}")
             continue
-        reported = {item["discriminator"]: item["validation_result"] for item in outcome["ok"]}
-        for node, parent in walk(request["op"]["ahb"]):
-            if node["t"] != "f" or node["d"] not in reported:
+        # match the reported items with the nodes of the AHB: reported discriminators are a subsequence of the
+        # document order (nodes below forbidden parents are missing); discriminators may repeat among siblings
+        nodes = list(walk(request["op"]["ahb"]))
+        reported_by_position, cursor = {}, 0
+        for item in outcome["ok"]:
+            while cursor < len(nodes) and nodes[cursor][0]["d"] != item["discriminator"]:
+                cursor += 1
+            if cursor == len(nodes):
+                break
+            reported_by_position[cursor] = item["validation_result"]
+            cursor += 1
+        position_of = {id(n): i for i, (n, _) in enumerate(nodes)}
+        for position, (node, parent) in enumerate(nodes):
+            if node["t"] != "f" or position not in reported_by_position:
                 continue
-            segment_status = reported[parent["d"]]["requirement_validation"].split(".")[-1]
-            expected = references[rid].get(f"{node['d']}|{segment_status}")
-            got = {"ok": reported[node["d"]]}
+            if position_of[id(parent)] not in reported_by_position:
+                continue
+            segment_status = reported_by_position[position_of[id(parent)]]["requirement_validation"].split(".")[-1]
+            expected = references[rid].get(f"{position}|{segment_status}")
+            got = {"ok": reported_by_position[position]}
             checked_elements += 1
             if got != expected:
                 fail(
@@ -241,11 +260,15 @@ def execute(scenario):
                 )
     # evaluator-side record
     inputs = {r["rid"]: {n["d"]: n["input"] for n, _ in walk(r["op"]["ahb"]) if n["t"] == "f"} for r in scenario["requests"]}
+    repeated = {
+        r["rid"]: {d for d in [n["d"] for n, _ in walk(r["op"]["ahb"])] if [n["d"] for n, _ in walk(r["op"]["ahb"])].count(d) > 1}
+        for r in scenario["requests"]
+    }
     owners = {r["rid"]: r["owners"] for r in scenario["requests"]}
     owned_calls = 0
     for rid, key, text in sim.fc_calls:
         owner = owners.get(rid, {}).get(key)
-        if owner is None:
+        if owner is None or owner in repeated.get(rid, ()):
             continue
         owned_calls += 1
         if rid in [r["rid"] for r in observed] and text != inputs[rid][owner]:
